@@ -12,11 +12,12 @@ def showPool (p : Pool) : String :=
 def showLP (l : LP) : String := s!"{l.sym} {l.addr} {l.units} {l.lastUpdated}"
 
 def dump (s : St) : String :=
-  let bank := s.bank.filter (fun e => e.2 ≠ 0)
-  let bankToks := bank.map (fun e => (e.1.replace "/" " ") ++ " " ++ toString e.2)
+  let bank := (s.bank.map (fun a => (a.2.filter (fun e => e.2 ≠ 0)).map (fun e => s!"{a.1} {e.1} {e.2}"))).flatten
+  let bankToks := bank
+  let lpl := (s.lps.map (fun a => a.2.map (·.2))).flatten
   String.intercalate " " (
     ["pools", toString s.pools.length] ++ s.pools.map (fun e => showPool e.2) ++
-    ["lps", toString s.lps.length] ++ s.lps.map (fun e => showLP e.2) ++
+    ["lps", toString lpl.length] ++ lpl.map showLP ++
     ["buckets", toString s.buckets.length] ++ s.buckets.map (fun e => s!"{e.1} {e.2}") ++
     ["bank", toString bank.length] ++ bankToks ++
     ["accu", toString s.accu, "height", toString s.height])
@@ -30,11 +31,11 @@ partial def parsePools : Nat → List String → AList Pool → Option (AList Po
       parsePools n ts (acc.set (poolKey sym) p)
   | _, _, _ => none
 
-partial def parseLps : Nat → List String → AList LP → Option (AList LP × List String)
+partial def parseLps : Nat → List String → AList (AList LP) → Option (AList (AList LP) × List String)
   | 0, ts, acc => some (acc, ts)
   | n+1, sym :: addr :: u :: lu :: ts, acc => do
       let l : LP := { sym := sym, addr := addr, units := ← parseNat u, lastUpdated := ← parseInt lu }
-      parseLps n ts (acc.set (lpKey sym addr) l)
+      parseLps n ts (acc.set sym (((acc.get sym).getD []).set addr l))
   | _, _, _ => none
 
 partial def parseKV : Nat → List String → AList Nat → Option (AList Nat × List String)
@@ -42,9 +43,9 @@ partial def parseKV : Nat → List String → AList Nat → Option (AList Nat ×
   | n+1, k :: v :: ts, acc => do parseKV n ts (acc.set k (← parseNat v))
   | _, _, _ => none
 
-partial def parseBank : Nat → List String → AList Nat → Option (AList Nat × List String)
+partial def parseBank : Nat → List String → AList (AList Nat) → Option (AList (AList Nat) × List String)
   | 0, ts, acc => some (acc, ts)
-  | n+1, a :: d :: v :: ts, acc => do parseBank n ts (acc.set (bkey a d) (← parseNat v))
+  | n+1, a :: d :: v :: ts, acc => do parseBank n ts (acc.set a (((acc.get a).getD []).set d (← parseNat v)))
   | _, _, _ => none
 
 def parseDump (ts : List String) : Option St :=
